@@ -274,6 +274,10 @@ BASE_BAGS = {"CH4": [(1, 1), (2, 4)], "H2O": [(2, 2), (3, 1)], "Fe3O4": [(4, 1),
              "hydrate": None, "zero": None, "half": [(2, 0.5), (3, 1.5)], "H": [(2, 1)]}
 
 
+class InitializerChanged(Exception):
+    pass
+
+
 def _base(how, b, ats, T):
     """ats: index (1-based) -> (z, a, q, rendered)."""
     import periodictable as P
@@ -288,6 +292,8 @@ def _base(how, b, ats, T):
             return P.formula(s, table=tab)
         if how == "dict":
             return P.formula({A(1): 1, A(3): 9, A(2): 12})
+        if how == "gen":      # one-shot iterables, nested
+            return P.formula(iter([(1, A(1)), (3, A(3)), (6, ((c, a) for c, a in [(2, A(2)), (1, A(3))]))]))
         return P.formula([(1, A(1)), (3, A(3)), (6, [(2, A(2)), (1, A(3))])])
     if b == "zero":           # C O0 H2: a member with count zero contributes nothing
         if how == "str":
@@ -296,7 +302,14 @@ def _base(how, b, ats, T):
                  "%s%s2+%s%s" % (R(1), R(2), ztxt, R(3)), "%s%s%s %s2" % (R(1), R(3), ztxt, R(2))][(variant + ats[0][0]) % 4]
             return P.formula(s, table=tab)
         if how == "dict":
-            return P.formula({A(1): 1, A(3): 0.0, A(2): 2})
+            d = {A(1): 1, A(3): 0.0, A(2): 2}
+            keep = dict(d)
+            f = P.formula(d)
+            if d != keep or list(d) != list(keep):
+                raise InitializerChanged("formula(dict) changed the caller's dict")
+            return f
+        if how == "gen":
+            return P.formula(zip([1, 0, 2], [A(1), ((1, A(3)),), A(2)]))
         return P.formula([(1, A(1)), (0, [(1, A(3)), (2, A(2))]), (2, A(2))])
     pairs = BASE_BAGS[b]
     if how == "atom":
@@ -305,7 +318,14 @@ def _base(how, b, ats, T):
         s = "".join("%s%s" % (R(i), ("" if c == 1 else ("%g" % c))) for i, c in pairs)
         return P.formula(s, table=tab)
     if how == "dict":
-        return P.formula(dict((A(i), c) for i, c in pairs))
+        d = dict((A(i), c) for i, c in pairs)
+        keep = dict(d)
+        f = P.formula(d)
+        if d != keep or list(d) != list(keep):
+            raise InitializerChanged("formula(dict) changed the caller's dict")
+        return f
+    if how == "gen":
+        return P.formula((c, A(i)) for i, c in pairs)
     return P.formula([(c, A(i)) for i, c in pairs])
 
 
@@ -332,11 +352,23 @@ def observe_pool(arg):
             return index[kk] + (len(ats) if owner == other else 0)
         ev = {"id": it["id"], "ops": it["ops"], "steps": []}
         try:
-            ev["atoms"] = []
-            for (z, a, q, r) in ats:
-                at = atom(z, a, q, T)
-                base = at.element if q else at
-                ev["atoms"].append({"m": dec.to_dec(at.mass), "mbase": dec.to_dec(base.mass), "q": q})
+            if T and it.get("edit"):
+                # the owner of the private table rescales its masses after they have been used once
+                for (z, a, q, r) in ats:
+                    at = atom(z, a, q, T)
+                    _ = at.mass
+                for z in sorted(set(a[0] for a in ats)):
+                    el = _tab(T)[z]
+                    el._mass = el._mass * 1.03125
+                    for iso in el:
+                        if "_mass" in vars(iso):
+                            iso._mass = iso._mass * 1.03125
+            ev["atoms"] = []          # one entry per slot: the seven atoms of the home table, then those of the other table
+            for tn in (home, other):
+                for (z, a, q, r) in ats:
+                    at = atom(z, a, q, None if tn == "public" else tn)
+                    base = at.element if q else at
+                    ev["atoms"].append({"m": dec.to_dec(at.mass), "mbase": dec.to_dec(base.mass), "q": q})
             pool = {}
             for op in it["ops"]:
                 k = op["op"]
